@@ -420,3 +420,5 @@ func propC18() Prop[C18Case] {
 func TestC18(t *testing.T) { Run(t, propC18()) }
 
 func FuzzGenC18(f *testing.F) { RunFuzz(f, propC18()) }
+
+func TestRaceC18(t *testing.T) { RunConcurrent(t, propC18(), 4) }
